@@ -424,6 +424,10 @@ func (vc *VC) checkCallSites(ins *ssa.Call) {
 func (vc *VC) execCall(ins *ssa.Call) {
 	cc := ins.Common()
 	h := vc.cur.heap
+	if vc.callPC == nil {
+		vc.callPC = map[*ssa.Call]string{}
+	}
+	vc.callPC[ins] = vc.cur.pc
 	vc.checkCallSites(ins)
 	if cc.IsInvoke() {
 		recv := vc.val(cc.Value)
@@ -725,7 +729,7 @@ func (vc *VC) applyContract(ins *ssa.Call, c *Contract, f *ssa.Function, sig *ty
 		if c.clauseMode(cl) != vc.modeName() {
 			continue // postconditions stated in the other integer mode are not used here (sound: fewer assumptions)
 		}
-		if strings.Contains(cl.Src, "ret(\"") {
+		if strings.Contains(cl.Src, "ret(\"") || strings.Contains(cl.Src, "called(\"") {
 			continue // speaks about the callee's own calls: not visible to a caller
 		}
 		if cl.Mode == "ringax" {
